@@ -1244,6 +1244,8 @@ def main(outfile):
     py2lean_errreg.main_errreg(os.path.join(os.path.dirname(outfile), 'TranslatedErrReg.lean'), sys.modules[__name__])
     import py2lean_wiring                                        # separate module: connect, _finalize, resolver, finalize (C15)
     py2lean_wiring.main_wiring(os.path.join(os.path.dirname(outfile), 'TranslatedWiring.lean'), write_if_changed)
+    import py2lean_csig                                          # separate module: check_signature, input_signature, start() of the library CBlocks (C15)
+    py2lean_csig.main_csig(os.path.join(os.path.dirname(outfile), 'TranslatedCsig.lean'), write_if_changed)
     import py2lean_initsb                                        # separate module: Circuit.init_sblock and the sync loops (C05)
     py2lean_initsb.main_initsb(os.path.join(os.path.dirname(outfile), 'TranslatedInitSb.lean'), sys.modules[__name__])
     import py2lean_fsmtimer
